@@ -634,3 +634,33 @@ def _np_any(eng, rec):
 
 
 _Model.ext_models.update({"numpy.asarray": _np_asarray, "numpy.any": _np_any})
+
+
+def _math_pow(eng, rec):
+    import math
+    from .tensor import sym_pow
+    x, y = rec.args
+    if not is_sym(x) and not is_sym(y):
+        return eng._concrete(lambda: math.pow(x, y))
+    return sym_pow(eng.to_real(x), eng.to_real(y))
+
+
+def _math_log(eng, rec):
+    import math
+    from .tensor import Log
+    x = rec.args[0]
+    if not is_sym(x):
+        return eng._concrete(lambda: math.log(x))
+    return Log(eng.to_real(x))
+
+
+def _math_sqrt(eng, rec):
+    import math
+    from .tensor import Sqrt
+    x = rec.args[0]
+    if not is_sym(x):
+        return eng._concrete(lambda: math.sqrt(x))
+    return Sqrt(eng.to_real(x))
+
+
+_Model.ext_models.update({"math.pow": _math_pow, "math.log": _math_log, "math.sqrt": _math_sqrt})
